@@ -891,7 +891,7 @@ def gen_hist(rng):
 
 
 def gen_cases(rng, tier):
-    n_stmt, n_term, n_exec, n_hist = (330, 90, 160, 120) if tier == "quick" else (5000, 1200, 2500, 2000)
+    n_stmt, n_term, n_exec, n_hist = (330, 90, 160, 120) if tier == "quick" else (12000, 3000, 6000, 5000)
     out = []
     for i in range(n_stmt):
         g = CGen(rng, max_depth=rng.choice([1, 2, 2, 3]), p_subq=rng.choice([0.2, 0.35, 0.5]), p_alias=rng.choice([0.15, 0.35, 0.6]))
@@ -926,6 +926,18 @@ def _f(col, tbl):
 
 
 def corpus():
+    """witnesses of the known findings and pinned shapes (built here), plus any minimised failures kept as JSON lists in
+    corpus/C10/extra*.json"""
+    import glob
+    import os
+    from harness.lib import VERIF
+    out = _corpus_builtin()
+    for path in sorted(glob.glob(os.path.join(VERIF, "corpus", "C10", "extra*.json"))):
+        out += json.load(open(path))
+    return out
+
+
+def _corpus_builtin():
     T, U, V = ["t", [], None], ["u", [], None], ["v", [], None]
     s0 = ["#0", [], None]
     s1 = ["#1", [], None]
@@ -1395,7 +1407,7 @@ def oracle(case, outcome):
         err = ex.get("error")
         if err and ("ambiguous column" in err or "no such column" in err) and not ex.get("ref_error"):
             kind = "ambiguous-column" if "ambiguous" in err else "no-such-column"
-            viols.append({"signature": ["C10", "sqlite", kind, _exec_cause(outcome)],
+            viols.append({"signature": ["C10", "sqlite", kind, _exec_cause(outcome, errors_first=True)],
                           "what": "SQLite rejects %r: %s (the explicit reference %r is accepted)" % (text[:300], err, (ex.get("ref") or "")[:300])})
         elif not err and ex.get("ref_rows") is not None and ex["rows"] != ex["ref_rows"]:
             viols.append({"signature": ["C10", "sqlite", "rows-differ", _exec_cause(outcome)],
@@ -1419,22 +1431,27 @@ def oracle_hist(case, outcome):
     return _dedupe(viols)
 
 
-def _exec_cause(outcome):
-    """which construction of the statement explains an SQLite disagreement (for a specific signature)"""
+def _exec_cause(outcome, errors_first=False):
+    """which construction of the statement explains an SQLite disagreement (for a specific signature): a duplicated source
+    name explains a rejected statement, a correlated reference outside WHERE explains different rows"""
     names, info = outcome["names"], outcome["info"]
+    corr = None
     for r in outcome["refs"]:
-        st = info[str(r["sid"])]
         if r["bind"][0] in ("outer", "outer-target") and r["clause"] != "where":
-            return "correlated-reference-outside-where"
+            corr = "correlated-reference-outside-where"
+    dup = None
     for sid, ent in names.items():
         if ent is None or sid.endswith(":target"):
             continue
         al = [e["alias"] for e in ent if e["alias"]]
         if len(al) != len(set(al)):
-            if any(e["pretag"] for e in ent):
-                return "duplicate-name-reused-subquery"
-            return "duplicate-name"
-    return "other"
+            twice = {a for a in al if al.count(a) > 1}
+            if any(e["pretag"] for e in ent if e["alias"] in twice):
+                dup = "duplicate-name-reused-subquery"
+            else:
+                dup = dup or "duplicate-name"
+    order = [dup, corr] if errors_first else [corr, dup]
+    return next((x for x in order if x), "other")
 
 
 def _dedupe(viols):
